@@ -243,6 +243,8 @@ class Gen(object):
                         res.add(typeof(table[op](sx[0], sy[0])))
                     except Exception:  # noqa
                         return None
+            if self.inloop and any(isinstance(t, tuple) for t in res):
+                return None        # tuple concatenation in a loop grows the tags without bound as well
             return '(%s %s %s)' % (a, op, b), res
         if k == 'un':
             op = r.choice(sorted(UNOPS))
@@ -631,20 +633,28 @@ class Recorder(object):
     def __init__(self, prog):
         self.prog = prog
         self.events = []       # ('E', node, value-tag, value, writer) / ('B', node, name, value, ...) / ('C', fun, name, value|UNBOUND, writer)
-        self.writer = {}       # (owner function, name) -> (node index of the binding construct, 'typed?' decided later)
+        self.writer = {}       # (owner function, name) -> (binding construct, binding occurrence, activation of the writing function)
+        self.calls = {}        # function name -> number of activations so far
         self.limit = 4000
 
     def E(self, k, owner, name, v):
         if len(self.events) < self.limit:
-            self.events.append(('E', k, v, self.writer.get((owner, name)) if name else None))
+            rf = self.prog.fun_of(k)
+            self.events.append(('E', k, v, self.writer.get((owner, name)) if name else None,
+                                self.calls.get(rf.name, 0) if rf is not None else 0))
         return v
 
     def B(self, k, binds):
         # binds: list of (store-node index, owner, name, value)
+        if isinstance(self.prog.nodes[k], ast.arguments):
+            fname = self.prog.fun_of(k).name
+            self.calls[fname] = self.calls.get(fname, 0) + 1
         for (sk, owner, name, v) in binds:
-            self.writer[(owner, name)] = (k, sk)
+            wf = self.prog.fun_of(sk)
+            w = (k, sk, self.calls.get(wf.name, 0) if wf is not None else 0)
+            self.writer[(owner, name)] = w
             if len(self.events) < self.limit:
-                self.events.append(('B', sk, v, (k, sk)))
+                self.events.append(('B', sk, v, w))
         self.events.append(('BE', k))
 
     def C(self, fk, caps):
@@ -1049,7 +1059,7 @@ def judge(prog, an, runs):
                     continue
                 cause = None
                 if is_read and writer is not None:
-                    wk, sk = writer
+                    wk, sk, wact = writer
                     wf = prog.fun_of(sk)
                     wn = prog.nodes[sk]
                     wname = wn.id if isinstance(wn, ast.Name) else (wn.arg if isinstance(wn, ast.arg) else wn.name)
@@ -1057,7 +1067,9 @@ def judge(prog, an, runs):
                         cause = UNTYPED
                     elif sk in tainted:
                         cause = tainted[sk]
-                    elif wf is not None and not isinstance(wn, ast.FunctionDef) and prog.owner(wf, wname) != wf.name:
+                    elif wf is not None and not isinstance(wn, ast.FunctionDef) and prog.owner(wf, wname) != wf.name \
+                            and (wf is not prog.fun_of(k) or wact != ev[4]):
+                        # bound through `nonlocal` in another function, or in an earlier activation of this one
                         cause = SIDE
                     if cause:
                         stmt_cause[st] = cause
@@ -1082,7 +1094,7 @@ def judge(prog, an, runs):
                     continue
                 cause = None
                 if writer is not None:
-                    wk, sk = writer
+                    wk, sk, wact = writer
                     wf = prog.fun_of(sk)
                     wn = prog.nodes[sk]
                     if sk not in an.types and not isinstance(wn, ast.FunctionDef):
